@@ -23,7 +23,7 @@ ANCHORS = ["TrajectoryPrediction.occupancy_set", "TrajectoryPrediction._invalida
            "DynamicObstacle.update_prediction", "LaneletNetwork.translate_rotate", "LaneletNetwork._create_strtree",
            "LaneletNetwork.add_lanelet", "LaneletNetwork.remove_lanelet", "TrafficLightCycle.cycle_init_timesteps",
            "Lanelet.translate_rotate"]
-REQUIRED = ["lanelet.curved", "network.has-a-curved-lanelet", "kind.dynamic", "kind.static", "kind.lanelet", "kind.network", "kind.scenario", "kind.cycle",
+REQUIRED = ["remove_lanelet-list.member-then-foreign", "remove_lanelet-list.member-named-twice", "lanelet.curved", "network.has-a-curved-lanelet", "kind.dynamic", "kind.static", "kind.lanelet", "kind.network", "kind.scenario", "kind.cycle",
             "op.obstacle.translate_rotate", "op.prediction.translate_rotate", "op.trajectory.translate_rotate",
             "op.prediction=", "op.update_prediction", "op.trajectory=", "op.shape=", "op.update_initial_state",
             "op.network.translate_rotate", "op.add_lanelet", "op.remove_lanelet", "op.scenario.translate_rotate",
@@ -339,7 +339,10 @@ def run(ctx):
     # bulk addition of another network's lanelets (a duplicate id is rejected with a warning; what was accepted counts)
     MERGE_OPS = ["merge.disjoint", "merge.new-then-duplicate", "merge.duplicate-first"]
 
+    list_variant = [0]
+
     def run_net(rng, ops, in_scenario, deferred_build=False):
+        ghosts = []
         lanelets, _ = lattice.gen_lanelets(rng, nmax=4)
         # one lanelet that follows a curve, far from the others: its boundary segments are shorter / longer than its centre
         # segments, so that distance and inner distance are different numbers
@@ -420,7 +423,22 @@ def run(ctx):
                     if len(net.lanelets) < 2:
                         continue
                     victim = rng.choice(net.lanelets)
+                    ghosts.append(np.array(victim.center_vertices[len(victim.center_vertices) // 2], dtype=float))
                     (sc.remove_lanelet(victim) if sc is not None else net.remove_lanelet(victim.lanelet_id))
+                elif op == "remove_lanelet-list":
+                    # the list form on a scenario: two members / a member followed by a lanelet that is not part of the
+                    # network (tolerated) / a member named twice
+                    if sc is None or len(net.lanelets) < 3:
+                        continue
+                    a_, b_ = rng.sample(net.lanelets, 2)
+                    foreign = lattice.lanelet(7777, lattice.strip(rng, 90.0, 90.0, 2, 2.0, 2.0, wobble=False))
+                    variant = list_variant[0] = (list_variant[0] + 1) % 3
+                    lst = [[a_, b_], [a_, foreign], [a_, b_, a_]][variant]
+                    ctx.feature("remove_lanelet-list." + ["two-members", "member-then-foreign", "member-named-twice"][variant])
+                    for v_ in lst:
+                        if v_ is not foreign:
+                            ghosts.append(np.array(v_.center_vertices[len(v_.center_vertices) // 2], dtype=float))
+                    sc.remove_lanelet(lst)
             except Exception as e:  # noqa
                 ctx.violation("C11/network/%s/raises-%s" % (op, type(e).__name__), repr(e)[:200], {"ops": done + [op]})
                 return
@@ -428,6 +446,7 @@ def run(ctx):
             ctx.feature("op." + op)
             ctx.evaluation()
             pts, shapes = probes(net, rng)  # probes follow the CURRENT geometry
+            pts = pts + ghosts[-6:]         # ... and visit the places where removed lanelets used to be
             wit = {"kind": "scenario" if in_scenario else "network", "ops": list(done)}
             try:
                 bad = cmp_net(query_net(net, pts, shapes), query_net(fresh_net(net), pts, shapes))
@@ -552,7 +571,7 @@ def run(ctx):
     # =========================================================================================================
     depth = ctx.pick(2, 3)
     plans = []
-    for kind, ops in (("dynamic", DYN_OPS), ("network", NET_OPS[:3] + MERGE_OPS), ("scenario", NET_OPS[:4]), ("cycle", CYC_OPS)):
+    for kind, ops in (("dynamic", DYN_OPS), ("network", NET_OPS[:3] + MERGE_OPS), ("scenario", NET_OPS[:4] + ["remove_lanelet-list"]), ("cycle", CYC_OPS)):
         for d in range(1, depth + 1):
             for seq in itertools.product(ops, repeat=d):
                 plans.append((kind, list(seq)))
